@@ -98,10 +98,15 @@ def _blur_patches():
     return env.patched((masking, 'numpy', env.numpy_proxy()))
 
 
-def body_blur(ctx, h, w, size):
+def body_blur(ctx, h, w, size, layout='C'):
     from emsarray import masking
     arr = sym_mask(ctx, h, w)
-    out = masking.blur_mask(arr, size=size)
+    # the same boolean array held column-major, or as the transposed view of a (w, h) array: the answer depends on
+    # the values, never on how the array is laid out in memory
+    held = {'C': lambda a: a, 'F': numpy.asfortranarray, 'T': lambda a: numpy.ascontiguousarray(a.T).T}[layout](arr)
+    if layout != 'C' and min(h, w) > 1:
+        ctx.check(held.flags.f_contiguous and not held.flags.c_contiguous, 'harness: column-major array built')
+    out = masking.blur_mask(held, size=size)
     ctx.check(tuple(out.shape) == (h, w), 'blur_mask keeps the shape')
     for j in range(h):
         for i in range(w):
@@ -366,6 +371,9 @@ def cases(tier):
             big = h * w >= 12
             if big and size in (0, 3) and (h, w) != (4, 4):
                 continue
+            if (h, w) in ((2, 3), (3, 2), (3, 3)) and size in (1, 2):
+                for layout in ('F', 'T'):
+                    yield Case(f'blur:{h}x{w}:size{size}:layout{layout}', body_blur, dict(h=h, w=w, size=size, layout=layout), patches=_blur_patches)
             yield Case(f'blur:{h}x{w}:size{size}', body_blur, dict(h=h, w=w, size=size), patches=_blur_patches,
                        split=(64 if h * w >= 9 else 0), validate=(h * w <= 9), max_paths=70000)
     grid_cfgs = [('cf1d', (2, 3), ()), ('cf2d', (3, 2), ()), ('cf2d', (2, 3), ((0, 1),)),
